@@ -81,6 +81,24 @@ def fixed_histories(rng):
                 ops.append({"k": "calc", "b": 5, "valid": True})
                 ops.append({"k": "fit", "method": "constant", "pos": None, "valid": True})
         out.append({"sr": 4, "sc": 6, "h": h, "w": w, "three_d": False, "data": [rng.randint(1, 60) for _ in range(n * h * w)], "ops": ops})
+    # --- (1b) the same with MEASURED origins: strictly positive patterns (outer products) whose centre of mass is the exact
+    # integer (1 + a, 1 + b) at scan position (a, b): calculate_origin -> plane fit on the inferred grid, after every replacement
+    h = w = 10
+
+    def planar_data(sr, sc):
+        d = []
+        for a in range(sr):
+            for b in range(sc):
+                ra, cb = int_com_vector(rng, h, 1 + a), int_com_vector(rng, w, 1 + b)
+                d += [x * y for x in ra for y in cb]
+        return d
+    ops = []
+    for step, (sr, sc) in enumerate(((4, 6), (6, 4), (3, 8), (8, 3))):
+        if step:
+            ops.append({"k": "set_tensor", "shape": [sr, sc, h, w], "data": planar_data(sr, sc), "valid": True})
+        ops.append({"k": "calc", "b": (None, 5, 24, 7)[step], "valid": True})
+        ops.append({"k": "fit", "method": "plane", "pos": None, "valid": True})
+    out.append({"sr": 4, "sc": 6, "h": h, "w": w, "three_d": False, "data": planar_data(4, 6), "ops": ops})
     # --- (2) one object shifted again and again: target / batch size / origins / data / scan shape change between the calls
     for (sr, sc, h, w) in ((3, 5, 3, 5), (5, 3, 5, 3)):
         n = 15
